@@ -263,6 +263,7 @@ let parse_line (cfg : config ref) (l : string) : line option =
   | [] -> None
   | t :: _ when t.[0] = '#' -> None
   | "cfg" :: kvs -> Some (LCfg kvs)
+  | "fault" :: _ -> None
   | ["put"; k] -> Some (LOp (l, OpPut (key_of k, [])))
   | ["put"; k; cs] -> Some (LOp (l, OpPut (key_of k, parse_chunks cs)))
   | ["abort"; k] -> Some (LOp (l, OpAbort (key_of k, [])))
@@ -302,7 +303,7 @@ let parse_plant_path (p : string) : path =
   | _ -> failwith ("bad plant path " ^ p)
 
 (* ---------- running one case ---------- *)
-type mode = Plain | CrashAll | Fault of int | FaultAll
+type mode = Plain | CrashAll | Fault of int | FaultAll | DamageAll
 
 let obs_model (out : Buffer.t) (hd : handle option) (w : world) (since : int ref) =
   (match hd with
@@ -318,6 +319,10 @@ let obs_model (out : Buffer.t) (hd : handle option) (w : world) (since : int ref
   since := List.length tr
 
 let run_lines (out : Buffer.t) (lines : string list) (fs0 : fs) (fault : int option) : world * fs =
+  let fault = match fault with
+    | Some _ -> fault
+    | None -> List.fold_left (fun acc l -> match List.filter (fun s -> s <> "") (String.split_on_char ' ' l) with
+        | ["fault"; k] -> Some (int_of_string k) | _ -> acc) None lines in
   let cfg = ref default_cfg in
   let w = ref (init_world fs0 (match fault with None -> None | Some k -> Some (nat_of_int k))) in
   let hd = ref None in
@@ -393,6 +398,50 @@ let recovery (out : Buffer.t) (cfg : config) (keys : string list) (img : fs) =
    | None -> ());
   dump_fs out "W " !w.wfs false
 
+
+(* ---------- damage-all (C10): every truncation / single-byte change of the uncheckpointed records ---------- *)
+let sample_range (a : int) (b : int) : int list =
+  let n = b - a in
+  if n <= 120 then List.init n (fun i -> a + i)
+  else List.filter (fun x -> x - a < 50 || b - x <= 50 || (x - a) mod 17 = 0) (List.init n (fun i -> a + i))
+let damage_all (out : Buffer.t) (cfg : config) (s : fs) =
+  dump_fs out "Z " s false;
+  let c = match fget s PIndex with
+    | Some f -> (match dec_snapshot f.fdata with Ok (v, _) -> int_of_n v | Err _ -> 0)
+    | None -> 0 in
+  let ids = List.sort compare (List.filter_map (fun (p, _) -> match p with PWal i -> Some (int_of_n i) | _ -> None) s.files) in
+  List.iter (fun id ->
+    let p = PWal (n_of_int id) in
+    match fget s p with
+    | None -> ()
+    | Some f ->
+      let data = f.fdata in
+      let (recs, _) = read_segment_lazy hash_fn (S (length data)) data in
+      let name = path_str p in
+      let try_open (label : string) (data' : bytes) =
+        let s' = { s with files = set_path s.files p { fdata = data'; fsynced = length data' } } in
+        (* a truncation cuts the log short: later segments are gone as well *)
+        let s' = if String.length label > 0 && label.[0] = 't'
+          then { s' with files = List.filter (fun (q, _) -> match q with PWal j -> int_of_n j <= id | _ -> true) s'.files }
+          else s' in
+        let ((r, hd), _) = step hash_fn None (OpOpen (cfg, true)) (init_world s' None) in
+        let ent = match hd with Some h -> " " ^ "entries:" ^ entries_str h.h_mem.idx.km | None -> "" in
+        Buffer.add_string out (Printf.sprintf "D %s %s -> %s%s\n" name label
+          (match r with OutOpened _ -> "opened" | x -> out_str x) ent) in
+      let off = ref 0 in
+      List.iter (fun (ver, payload) ->
+        let l = int_of_nat (length payload) in
+        let o = !off in
+        if int_of_n ver > c then begin
+          List.iter (fun cut -> try_open (Printf.sprintf "t %d" cut) (firstn (nat_of_int cut) data)) (sample_range o (o + 44 + l));
+          let flip pos mask =
+            let arr = Array.of_list data in
+            arr.(pos) <- n_of_int ((int_of_n arr.(pos)) lxor mask);
+            try_open (Printf.sprintf "x %d %d" pos mask) (Array.to_list arr) in
+          List.iter (fun pos -> flip pos 1; flip pos 128) (sample_range (o + 8) (o + 40) @ sample_range (o + 44) (o + 44 + l))
+        end;
+        off := o + 44 + l) recs) ids
+
 let run_case (name : string) (lines : string list) (mode : mode) =
   let out = Buffer.create 4096 in
   let (fs0, lines) = initial_fs lines in
@@ -403,6 +452,11 @@ let run_case (name : string) (lines : string list) (mode : mode) =
    | Fault k ->
      Buffer.add_string out (Printf.sprintf "CASE %s fault=%d\n" name k);
      ignore (run_lines out lines fs0 (Some k))
+   | DamageAll ->
+     let scratch = Buffer.create 4096 in
+     let (w, _) = run_lines scratch lines fs0 None in
+     Buffer.add_string out (Printf.sprintf "CASE %s\n" name);
+     damage_all out (case_cfg lines) w.wfs
    | FaultAll ->
      let scratch = Buffer.create 4096 in
      let (w, _) = run_lines scratch lines fs0 None in
@@ -488,6 +542,7 @@ let () =
     | "--crash-all" :: r -> mode := CrashAll; go r
     | "--fault" :: k :: r -> mode := Fault (int_of_string k); go r
     | "--fault-all" :: r -> mode := FaultAll; go r
+    | "--damage-all" :: r -> mode := DamageAll; go r
     | f :: r -> files := f :: !files; go r
     | [] -> () in
   go args;
